@@ -940,7 +940,17 @@ class ExprMixin:
         if val.ty is TStr:
             return val
         if val.ty is TInt:
-            return SV(TStr, z3.If(val.t >= 0, z3.IntToStr(val.t), z3.Concat(z3.StringVal("-"), z3.IntToStr(-val.t))))
+            # level-1 string encoding (DESIGN 2.2): str(int) is a named injective function whose
+            # value is a decimal numeral; constants are folded
+            t = z3.simplify(val.t)
+            if z3.is_int_value(t):
+                return mk_str(str(t.as_long()))
+            r = _istr()(val.t)
+            digits = z3.Plus(z3.Range("0", "9"))
+            self.ctx.assume(z3.InRe(r, z3.Union(digits, z3.Concat(z3.Re("-"), digits))))
+            self.ctx.assume(z3.PrefixOf(z3.StringVal("-"), r) == (val.t < 0))
+            self.ctx.assume(_istr_inv()(r) == val.t)
+            return SV(TStr, r)
         if isinstance(val.ty, TEnum):
             # StrEnum: str() is the value
             return self.get_attr(val, "value")
@@ -978,3 +988,15 @@ class _EmptyD(TDict):
 
 _EMPTY_LIST = _Empty()
 _EMPTY_DICT = _EmptyD()
+
+
+def _istr():
+    if "istr" not in sorts._cache:
+        sorts._cache["istr"] = z3.Function("py_str_of_int", z3.IntSort(), z3.StringSort())
+    return sorts._cache["istr"]
+
+
+def _istr_inv():
+    if "istr_inv" not in sorts._cache:
+        sorts._cache["istr_inv"] = z3.Function("py_int_of_str", z3.StringSort(), z3.IntSort())
+    return sorts._cache["istr_inv"]
